@@ -1161,6 +1161,40 @@ stat_s_h!(stat_def_s_3x1x2, 3, 6, [3, 1, 2]);
 // @harness props=C06 tier=quick group=f64 bounds=1x1,cells=0..3 timeout=900
 stat_s_h!(stat_def_s_1x1, 2, 1, [1, 1]);
 
+/// S does not look at the two monomorphic cells: with 2^53 sites in each of them (where f64 has no
+/// room left for the interior mass) S is still exactly the interior sum
+fn stat_s_big_case<const R: usize, const N: usize>(shape: [usize; R]) {
+    let d: [u8; N] = small::<N>(4);
+    let mut x = as_f64(&d);
+    x[0] = 9007199254740992.0;
+    x[N - 1] = 9007199254740992.0;
+    let scs = Scs::new(x.to_vec(), shape.to_vec()).unwrap();
+    let mut s = 0u32;
+    let mut i = 1;
+    while i + 1 < N {
+        s += d[i] as u32;
+        i += 1;
+    }
+    assert!(scs.segregating_sites() == s as f64);
+    kani::cover!(s % 2 == 1, "odd interior mass");
+    core::mem::forget(scs);
+}
+
+macro_rules! stat_s_big_h {
+    ($name:ident, $r:literal, $n:literal, $shape:expr) => {
+        #[kani::proof]
+        #[kani::unwind(18)]
+        fn $name() {
+            stat_s_big_case::<$r, $n>($shape)
+        }
+    };
+}
+
+// @harness props=C06,C14 tier=quick group=f64 bounds=5,monomorphic=2^53,interior=0..3 timeout=900
+stat_s_big_h!(stat_def_s_big_5, 1, 5, [5]);
+// @harness props=C06,C14 tier=quick group=f64 bounds=2x3,monomorphic=2^53,interior=0..3 timeout=900
+stat_s_big_h!(stat_def_s_big_2x3, 2, 6, [2, 3]);
+
 /// KING / R0 / R1 on 3x3: ratios of the two-individual genotype-pair counts (Waples et al. 2019);
 /// compared as numerator/denominator cross-products so that no division is needed in the oracle.
 fn ratio_is(v: f64, num: i32, den: i32) -> bool {
